@@ -96,18 +96,21 @@ def m_F06(case, backend, f):
 
 
 def m_F07(case, backend, f):
+    """SQL export fails with the strict zip() of SqlImpl.export after a grouped summarize (an
+    aggregate carrying the name of a grouping column: duplicate label in the select list)"""
     if backend != "sqlite" or f.get("exc") != "ValueError" or "zip()" not in (f.get("msg") or ""):
         return False
     for p in walk_pipes(case["pipe"]):
-        group = []
+        grouped = False
         for st in p["steps"]:
             if st[0] == "group_by":
-                group = (group if st[2] else []) + [e[-1] for e in st[1]]
-            if st[0] == "rename":
-                mp = {(a[-1] if isinstance(a, list) else a): b for a, b in st[1]}
-                group = [mp.get(n, n) for n in group]
-            if st[0] == "summarize" and any(n in group for n, _ in st[1]):
-                return True
+                grouped = True
+            elif st[0] == "ungroup":
+                grouped = False
+            elif st[0] == "summarize":
+                if grouped:
+                    return True
+                grouped = False
     return False
 
 
